@@ -123,11 +123,25 @@ func (fs *localFileSystem) MkdirPanicIfExist(path string, permission Mode) {
 }
 
 func (fs *localFileSystem) mkdir(path string, permission Mode) {
+	// MkdirAll may create several levels; the entry of every new directory
+	// lives in its own parent, so each of those parents must be synced, not
+	// only the parent of the leaf.
+	var created []string
+	for p := filepath.Clean(path); !fs.pathExist(p); p = filepath.Dir(p) {
+		created = append(created, p)
+		if filepath.Dir(p) == p {
+			break
+		}
+	}
 	if err := os.MkdirAll(path, os.FileMode(permission)); err != nil {
 		fs.logger.Panic().Str("path", path).Err(err).Msg("failed to create directory")
 	}
-	parentDirPath := filepath.Dir(path)
-	fs.SyncPath(parentDirPath)
+	if len(created) == 0 {
+		created = append(created, path)
+	}
+	for _, p := range created {
+		fs.SyncPath(filepath.Dir(p))
+	}
 }
 
 func (fs *localFileSystem) pathExist(path string) bool {
